@@ -45,6 +45,9 @@ ASSUMPTIONS = [
     "D3: when several arguments of one call are wrong, any of their errors is accepted (the documentation does not "
     "order the checks)",
     "D4: the mapping returned by _check_style_args is compared case-insensitively for method names",
+    "D5 (named deviation, modelled): the docstrings say 'method (None | str)', the code and the repository's own "
+    "tests (TestStyleArgs.test_method) refuse None with TypeError; omitting `method` is the way to get the effective "
+    "render method",
     "the render method / z-index / mix / compression level a call used are read from what it wrote: number of image "
     "transmissions (lines: one per row, whole: one), the z key of the kitty transmissions, presence of ECH, and the "
     "set of zlib / PNG levels that reproduce the transmitted bytes from the decoded data",
@@ -56,8 +59,8 @@ ASSUMPTIONS = [
 
 ACTIONS = ("SetClassMethod", "SetInstanceMethod", "SetMethodRejected", "DrawPlain", "DrawWithArgs", "DrawRejected",
            "DrawAnimation", "DrawAnimationRejected", "FormatWithSpec", "FormatRejected", "CheckArgs",
-           "CheckArgsRejected")
-TABLE_LAWS = ("DefaultsAreAccepted", "ZRangeFormulationsAgree", "ZRangeBoundaries", "VerdictIsTotal",
+           "CheckArgsRejected", "MethodNoneRefusedCall")
+TABLE_LAWS = ("DefaultsAreAccepted", "MethodNoneIsRefused", "ZRangeFormulationsAgree", "ZRangeBoundaries", "VerdictIsTotal",
               "OrderIrrelevant", "NormalisationPreservesMeaning", "CaseInsensitive", "RoutesAgree",
               "SetAndOverrideAgree")
 POOL = 6
